@@ -1,4 +1,5 @@
 import Hls.Muxer.TimeInit
+import Hls.Muxer.TimeTsInv
 /-!
 # C02 — Segments start on random access, respect the minimum duration, are cut on a parameter change
 
@@ -145,15 +146,45 @@ theorem c02_cut_iff_due_ts_video {cfg : Cfg} {st0 : State} (h0 : start cfg = .ok
   obtain ⟨hv', hg⟩ := leadStream_ts h0 hv ops
   exact ts_video_write hg hv' op hcd hacc hok
 
-/-- **MPEG-TS video segments start with a random-access unit**: the unit that rotates the segments is random access
-(previous theorem), and the unit that opens the very first segment is random access as long as the track has not yet
-passed its first random-access unit (`firstRA = false`; after a FAILED first random-access write the gate is open and a
-non-random-access unit may open the first segment — excluded by "every call succeeds"). -/
-theorem c02_ts_first_segment_ra (st : State) (op : WriteOp) (hacc : Accepted st op)
-    (hfirst : (st.track op.track).firstRA = false) : op.ra = true := by
-  rcases hacc.1 with h | h
-  · rw [hfirst] at h; cases h
-  · exact h
+/-- **MPEG-TS: once the video track has passed its first random-access unit a segment is open** — along every run
+whose writes all succeed and name tracks of the muxer (`Accept.AllOk`, `Accept.InRange`: the property's "every call
+succeeds").  Without that hypothesis it is false: an IDR without SPS fails after the gate was opened. -/
+theorem c02_ts_first_ra_opens {cfg : Cfg} {st0 : State} (h0 : start cfg = .ok st0) (hv : cfg.variant = .mpegts)
+    (ops : List WriteOp) (hin : Accept.InRange cfg ops = true) (hall : Accept.AllOk st0 ops = true)
+    (k : Nat) (hk : k < cfg.tracks.length) (hvid : ((run st0 ops).tcfg k).codec.isVideo = true)
+    (hfr : ((run st0 ops).track k).firstRA = true) : ((run st0 ops).stream 0).nextSegment.isSome = true :=
+  ts_firstRA_open h0 hv ops hin hall k hk hvid hfr
+
+/-- **MPEG-TS video: every segment starts with a random-access unit.**  In a run whose writes all succeed, a
+successful write of an accepted H264 unit that OPENS a segment — the very first one (no segment was open) or by a
+rotation (the counter moves) — is random access, and it is the first PES of the segment it opens (whose
+`startDTS`/`startNTP` are its `toDur dts`/`ntp`). -/
+theorem c02_ts_first_segment_ra {cfg : Cfg} {st0 : State} (h0 : start cfg = .ok st0) (hv : cfg.variant = .mpegts)
+    (ops : List WriteOp) (hin : Accept.InRange cfg ops = true) (hall : Accept.AllOk st0 ops = true)
+    (op : WriteOp) (hop : op.track < cfg.tracks.length) (hcd : ((run st0 ops).tcfg op.track).codec = .h264)
+    (hacc : Accepted (run st0 ops) op) (hok : (write (run st0 ops) op).2 = .ok)
+    (hopens : ((run st0 ops).stream 0).nextSegment = none ∨
+      ((write (run st0 ops) op).1.stream 0).nextSegmentID ≠ ((run st0 ops).stream 0).nextSegmentID) :
+    op.ra = true ∧
+    ∃ o', ((write (run st0 ops) op).1.stream 0).nextSegment = some o' ∧ o'.tsUnits = [h264Unit (run st0 ops) op] ∧
+      o'.startDTS = toDur op.dts ((run st0 ops).tcfg op.track).clockRate ∧ o'.startNTP = op.ntp := by
+  obtain ⟨o', h1, _, h3⟩ := c02_cut_iff_due_ts_video h0 hv ops op hcd hacc hok
+  cases hseg : ((run st0 ops).stream 0).nextSegment with
+  | none =>
+    rw [hseg] at h3
+    refine ⟨?_, o', h1, h3.2.2.2.1, h3.2.1, h3.2.2.1⟩
+    rcases hacc.1 with h | h
+    · have := c02_ts_first_ra_opens h0 hv ops hin hall op.track hop (by rw [hcd]; rfl) h
+      rw [hseg] at this; cases this
+    · exact h
+  | some seg =>
+    rw [hseg] at h3 hopens
+    simp only at h3
+    split at h3
+    · rename_i hc; exact ⟨hc.1, o', h1, h3.2.2.2.1, h3.2.1, h3.2.2.1⟩
+    · rcases hopens with h | h
+      · cases h
+      · exact absurd h3.1 h
 
 /-- **MPEG-TS audio-only: cut iff due** — one successful `write` of the leading AAC track: the segments are rotated
 iff the open segment has seen at least 100 writes and has reached `segmentMinDur` (no parameter rule). -/
@@ -211,7 +242,7 @@ theorem c02_cut_together {cfg : Cfg} {st0 : State} (h0 : start cfg = .ok st0) (o
   refine ⟨hk.sid, ?_, ?_⟩
   · have := congrArg (List.map (fun k : Int × Int × Int × List (Int × Int) => (k.1, k.2.1, k.2.2.1))) (reals_key hk.segs)
     simpa [List.map_map, Seg.key, Function.comp_def] using this
-  · have := congrArg (Option.map (fun k : Int × Int × List (Int × Int) => (k.1, k.2.1))) hk.opn
+  · have := congrArg (Option.map (fun k : Int × Int × Bool × List (Int × Int) => (k.1, k.2.1))) hk.opn
     simpa [Option.map_map, Seg.okey, Function.comp_def] using this
 
 /-- **The init segment declares exactly the stream's tracks**: in every reachable state, whatever is registered
@@ -246,6 +277,27 @@ theorem c02_init_after_change_lead {cfg : Cfg} {st0 : State} (h0 : start cfg = .
     lookupPath (rotateSegments (run st0 ops) d n f).paths (.init (leadStream st0)) =
       some (.init (((run st0 ops).stream (leadStream st0)).tracks.map fun t => ((run st0 ops).track t).params)) :=
   rotateSegments_init_lead (reach_GI h0 ops) (leadStream_fmp4 h0 hv ops).1 ho hp hf d n f
+
+/-- **After a forced rotation every stream's init carries the current parameters** (muxer level, every stream): in a
+reachable state of an fMP4-variant muxer whose open segment was opened by a forced rotation (the flag is the same in
+all streams — it is part of what `c02_cut_together`'s invariant keeps equal), one `rotateSegments` registers, for
+EVERY stream `si`, an init handler built from the parameters that stream's tracks have at that moment. -/
+theorem c02_init_after_change_all {cfg : Cfg} {st0 : State} (h0 : start cfg = .ok st0) (hv : cfg.variant ≠ .mpegts)
+    (ops : List WriteOp) (oL : Seg)
+    (hoL : ((run st0 ops).stream (leadStream st0)).nextSegment = some oL) (hforced : oL.forced = true)
+    (d n : Int) (f : Bool) (si : Nat) (hsi : si < st0.streams.length) :
+    lookupPath (rotateSegments (run st0 ops) d n f).paths (.init si) =
+      some (.init (((run st0 ops).stream si).tracks.map fun t => ((run st0 ops).track t).params)) := by
+  have hg := reach_GI h0 ops
+  have hv' := (leadStream_fmp4 h0 hv ops).1
+  have hl : si < (run st0 ops).streams.length := by rw [run_len h0]; exact hsi
+  have hk := (hg.key si hl).symm
+  obtain ⟨o, ho, hko⟩ := opt_map_some (hoL ▸ hk.opn)
+  have hfo : o.forced = true := by
+    simp only [Seg.okey, Prod.mk.injEq] at hko
+    rw [hko.2.2.1]; exact hforced
+  obtain ⟨p, hp⟩ := Option.isSome_iff_exists.1 (((hg.sinv si hl).partIff hv').1 (by rw [ho]; rfl))
+  exact rotateSegments_init_all hg hv' si hl ho hp (Or.inr hfo) d n f
 
 /-! ## Non-vacuity: a concrete Low-Latency muxer (H264 + AAC), rotations, a parameter change on an IDR -/
 
@@ -314,7 +366,9 @@ set_option maxRecDepth 100000 in
 `c02_ts_first_segment_ra`, and of `c02_cut_iff_due_ts_audio` -/
 example : (tsSt.tcfg 0).codec = .h264 ∧ Accepted tsSt (vop 2 true 0) ∧ (write tsSt (vop 2 true 0)).2 = .ok ∧
     ((write tsSt (vop 2 true 0)).1.stream 0).nextSegmentID = (tsSt.stream 0).nextSegmentID + 1 ∧
-    Accepted tsSt0 (vop 0 true 1) ∧ (tsSt0.track 0).firstRA = false ∧
+    Accepted tsSt0 (vop 0 true 1) ∧ (tsSt0.stream 0).nextSegment.isNone = true ∧
+    Accept.InRange tsCfg [vop 0 true 1, aop 0, vop 1 false 0] = true ∧
+    Accept.AllOk tsSt0 [vop 0 true 1, aop 0, vop 1 false 0] = true ∧
     (tsaSt0.tcfg 0).codec = .aac ∧ tsaSt0.isLeadingTrack 0 = true ∧ (write tsaSt0 (aop0 0)).2 = .ok := by decide
 
 end Hls.Props.C02
